@@ -4,8 +4,8 @@
    Theory/GlobbingSet.v (Globster, ExceptionGlobster, _OrderedGlobster).
 
    Vocabulary
-     M r w w'            regex r, started on input suffix w, can stop at suffix w'
-     hit pre a name      the single-pattern regex  pre(?:(a))$  matches name (re.match)
+     M r s w w'          regex r, started on input suffix w, can stop at suffix w' (s: inside (?s:...))
+     hit pre a name      the single-pattern regex  pre(?:(a))\Z  matches name (re.match)
      translate k toks    what the translator of kind k emits for the glob tokens toks
      gm / ref_match / glob_match   the REFERENCE semantics written from `brz help patterns`
      globster normalize engine k ps name   Globster(ps).match(name) with batch size k (99 in the code)
@@ -19,36 +19,32 @@ Import ListNotations.
 
 (* (2) the executable matcher used in the correspondence run computes exactly the
    denotational semantics (the fuel of the star loop suffices) *)
-Theorem C48_matcher_correct : forall r w w', In w' (run r w) <-> M r w w'.
+Theorem C48_matcher_correct : forall r s w w', In w' (run r s w) <-> M r s w w'.
 Proof. exact run_correct. Qed.
 Print Assumptions C48_matcher_correct.
 
-(* (3) every translator, behind its prefix and before '$', matches exactly what the
+(* (3) every translator, behind its prefix and before '\Z', matches exactly what the
    documented semantics says: whole path for fullpath patterns, last component for basename
    patterns, last component against  *.<rest>  for extension patterns.  All token lists
-   (literal, backslash escape, *, ?, **/, classes with negation and ranges), all names
-   without a newline. *)
+   (literal, backslash escape, *, ?, **/, classes with negation and ranges), ALL names
+   (since the repair 37b5ed8 also names containing newlines). *)
 Theorem C48_translate_correct : forall k toks name,
-  nonl name = true ->
-  (hit (prefix_re k) (translate k toks) name <-> ref_match k toks name = true).
+  hit (prefix_re k) (translate k toks) name <-> ref_match k toks name = true.
 Proof. exact translate_correct. Qed.
 Print Assumptions C48_translate_correct.
 
 (* ... and for whole (normalized, non-RE:) patterns, including that the "extension"
    optimisation agrees with reading the pattern as an ordinary basename pattern *)
 Theorem C48_pattern_correct : forall p name,
-  wf_pat p = true -> nonl name = true ->
-  (pat_hit p name <-> glob_match p name = true).
-Proof. intros p name Hw Hn. apply pattern_correct; [apply wf_pat_not_re; exact Hw|exact Hn]. Qed.
+  wf_pat p = true -> (pat_hit p name <-> glob_match p name = true).
+Proof. intros p name Hw. apply pattern_correct. apply wf_pat_not_re; exact Hw. Qed.
 Print Assumptions C48_pattern_correct.
 
-(* the guard [nonl] is necessary: '.' does not match a newline and '$' matches before a
-   final newline (candidate finding C48-newline) *)
-Theorem C48_translate_newline_refuted :
-  (exists toks name, gm toks (basename name) = true /\ ~ hit (prefix_re KBase) (translate KBase toks) name) /\
-  (exists toks name, gm toks (basename name) = false /\ hit (prefix_re KBase) (translate KBase toks) name).
-Proof. split; [exact newline_refuted_star|exact newline_refuted_eol]. Qed.
-Print Assumptions C48_translate_newline_refuted.
+(* regression instance of the repaired finding C48-newline *)
+Example C48_newline_names :
+  hit (prefix_re KBase) (translate KBase [TStar]) [120; 10; 121]%N /\
+  ~ hit (prefix_re KBase) (translate KBase [TLit 102; TLit 111; TLit 111]%N) [102; 111; 111; 10]%N.
+Proof. exact newline_names_now_right. Qed.
 
 (* (4) the alternation contract is satisfiable: the model's backtracking engine has it *)
 Theorem C48_engine_contract_instance :
@@ -127,14 +123,14 @@ Section Contract.
     engine k pats name = None -> forall p, In p pats -> ~ re_hits k p name.
 
   Theorem C48_match_sound_complete : forall k ps name, (0 < k)%nat ->
-    forallb wf_pat (map normalize ps) = true -> nonl name = true ->
+    forallb wf_pat (map normalize ps) = true ->
     (forall p, globster normalize engine k ps name = Some p ->
                In p (map normalize ps) /\ glob_match p name = true) /\
     (globster normalize engine k ps name = None <->
      forall p, In p (map normalize ps) -> glob_match p name = false).
   Proof. exact (match_sound_complete normalize engine eng_some eng_none). Qed.
 
-  Theorem C48_exceptions_doc_guarded : forall k ps name, (0 < k)%nat -> nonl name = true ->
+  Theorem C48_exceptions_doc_guarded : forall k ps name, (0 < k)%nat ->
     let '(i0, i1, i2) := split_exc ps in
     forallb wf_pat (map normalize i1) = true -> forallb wf_pat (map normalize i2) = true ->
     nonempty_all (map normalize i1) = true -> nonempty_all (map normalize i2) = true ->
